@@ -175,3 +175,53 @@ package eval
 //@         (lruHas(pe.cache.cache)[podConnKey(pe, src, dst, protocol, port)]
 //@          && lruVal(pe.cache.cache)[podConnKey(pe, src, dst, protocol, port)] == res0)
 //@   ensures [C03,C15] others: (podQuery(pe, src) && podQuery(pe, dst)) ==> lruOthersKept(pe.cache.cache, podConnKey(pe, src, dst, protocol, port))
+
+// ---------------------------------------------------------------------------------------------
+// Insert / delete of the other object kinds (C15 no-op deletes and cache invalidation, C19 conflicts, C12 totality)
+// ---------------------------------------------------------------------------------------------
+
+//@ func (*PolicyEngine).insertBaselineAdminNetworkPolicy
+//@   requires pe != nil && banp != nil
+//@   modifies pe.baselineAdminNetpol
+//@   ensures [C19] second: old(pe.baselineAdminNetpol) != nil ==> res != nil
+//@   ensures [C19] name: banp.Name != "default" ==> res != nil
+//@   ensures [C19,C15] rejected: res != nil ==> pe.baselineAdminNetpol == old(pe.baselineAdminNetpol)
+//@   ensures [C15] stored: res == nil ==> pe.baselineAdminNetpol == banp
+
+//@ func (*PolicyEngine).deleteBaselineAdminNetworkPolicy
+//@   requires pe != nil && banp != nil
+//@   modifies pe.baselineAdminNetpol
+//@   ensures [C15,C12] total: res == nil
+//@   ensures [C15] absent: old(pe.baselineAdminNetpol) == nil ==> pe.baselineAdminNetpol == nil
+//@   ensures [C15] other: (old(pe.baselineAdminNetpol) != nil && old(pe.baselineAdminNetpol.Name) != banp.Name) ==> pe.baselineAdminNetpol == old(pe.baselineAdminNetpol)
+
+//@ func (*PolicyEngine).deleteNamespace
+//@   requires pe != nil && ns != nil
+//@   modifies pe.namespacesMap[*]
+//@   ensures [C15,C12] total: res == nil
+//@   ensures [C15] removed: pe.namespacesMap != nil ==> (forall k string :: {k in pe.namespacesMap} (k in pe.namespacesMap) == (old(k in pe.namespacesMap) && k != ns.Name))
+
+//@ func (*PolicyEngine).deletePod
+//@   requires pe != nil && p != nil && pe.cache != nil && pe.cache.cache != nil && pe.cache.ownerToPods != nil
+//@   requires pe.podsMap != nil && (forall k string :: {k in pe.podsMap} k in pe.podsMap ==> pe.podsMap[k] != nil)
+//@   modifies *
+//@   modifies PolicyEngine.podsMap { r | false }
+//@   ensures [C15,C12] total: res == nil
+//@   ensures [C15] absent: !old(strJoin2Name(p.Namespace, p.Name) in pe.podsMap) ==> (dom(pe.podsMap) == old(dom(pe.podsMap))
+//@         && lruHas(pe.cache.cache) == old(lruHas(pe.cache.cache)))
+
+//@ func (*PolicyEngine).deleteNetworkPolicy
+//@   requires pe != nil && np != nil && pe.cache != nil
+//@   modifies *
+//@   modifies PolicyEngine.cache { r | false }, evalCache.cache { r | false }
+//@   ensures [C15,C12] total: res == nil
+//@   ensures [C15] cleared: pe.cache.cache != nil ==> (forall k string :: {lruHas(pe.cache.cache)[k]} !lruHas(pe.cache.cache)[k])
+
+//@ func (*PolicyEngine).insertNetworkPolicy
+//@   requires pe != nil && np != nil && pe.cache != nil && pe.netpolsMap != nil
+//@   requires forall k string :: {k in pe.netpolsMap} k in pe.netpolsMap ==> pe.netpolsMap[k] != nil
+//@   modifies *
+//@   modifies PolicyEngine.cache { r | false }, evalCache.cache { r | false }
+//@   ensures [C19] dup: (old(np.Namespace) != "" && old(np.Namespace in pe.netpolsMap) && old(np.Name in pe.netpolsMap[np.Namespace])) ==> res != nil
+//@   ensures [C19] dupdefault: (old(np.Namespace) == "" && old("default" in pe.netpolsMap) && old(np.Name in pe.netpolsMap["default"])) ==> res != nil
+//@   ensures [C15] cleared: (res == nil && pe.cache.cache != nil) ==> (forall k string :: {lruHas(pe.cache.cache)[k]} !lruHas(pe.cache.cache)[k])
